@@ -82,90 +82,195 @@ def _char_eq(e):
     return (p[0], p[2], p[1] == '!=')
 
 
+def _one(cands, what, fn):
+    if len(cands) != 1:
+        raise AnalysisBroken('TAB9: %s: cannot identify %s (candidates %s)' % (fn.name, what, sorted(cands)))
+    return next(iter(cands))
+
+
+def _rfc6901_encoding(b):
+    inv = {v: k for k, v in RFC6901.items()}       # byte -> escape digit
+    return [ord('~'), inv[b]] if b in inv else [b]
+
+
+def _segments_for(segs, cursor, b, axis=0):
+    return [s for s in segs if b in s.bytes_at(cursor, axis)]
+
+
 def tab9(units, R):
+    """The four JSON-pointer routines agree with RFC 6901 and with each other on every byte value.  Each routine's loop is
+    followed path by path with the sets of values the bytes under its cursors can have (rules/bytepath.py); the
+    obligations are then stated for all byte values 1..255 over what each path writes, returns and steps over - not
+    over how the conditions are spelled."""
+    from . import bytepath as bp
     u = units['cJSON_Utils.c']
-    tables = {}
-    # encode_string_as_pointer: if (src == C) { dst[0] = A; dst[1] = B; }
+    extracted = 0
+
+    # ---- encode_string_as_pointer ----
     fn = u.fn('encode_string_as_pointer')
-    enc = {}
-    for s in fn.nodes():
-        if s.get('k') != 'if':
-            continue
-        ce = _char_eq(s['c'])
-        if ce is None or ce[2]:
-            continue
-        stores = {}
-        for a in walk(s['t']):
-            if a.get('k') == 'bin' and a['op'] == '=' and strip_casts(a['l']).get('k') == 'idx':
-                idx = const_val(strip_casts(a['l'])['i'])
-                v = const_val(a['r'])
-                if idx is not None and v is not None:
-                    stores[idx] = v
-        if len(stores) >= 2:
-            enc[ce[1]] = tuple(stores[k] for k in sorted(stores))
-    if not enc:
-        raise AnalysisBroken('TAB9: escape table of encode_string_as_pointer could not be extracted')
-    tables['encode'] = enc
-    ok = all(len(v) == 2 and v[0] == ord('~') and RFC6901.get(v[1]) == k for k, v in enc.items()) and \
-        set(enc) == set(RFC6901.values())
-    R.ob('TAB9', fn, None, 'encode table %s' % {chr(k): ''.join(map(chr, v)) for k, v in enc.items()}, ok,
-         "'/'->~1, '~'->~0 (RFC 6901 section 3)" if ok else 'does not match RFC 6901', key='encode-table')
+    ex = bp.explore(u, fn)
+    segs = bp.loop_segments(ex)
+    src = _one(bp.reading_cursors(segs), 'the source cursor', fn)
+    dst = _one(bp.writing_cursors(segs) - {src}, 'the destination cursor', fn)
+    enc_len = {}
+    bad_table, bad_copy = [], []
+    for b in range(1, 256):
+        want = _rfc6901_encoding(b)
+        ss = _segments_for(segs, src, b)
+        if not ss:
+            raise AnalysisBroken('TAB9: %s: no path for byte %d' % (fn.name, b))
+        for sg in ss:
+            text = bp.expand_text(sg.writes_through(dst), 0, lambda p, b=b: b)
+            got = None
+            if text is not None and sg.end[0] == 'head' and sg.adv(src) == 1 and sg.adv(dst) is not None and \
+                    sorted(text) == list(range(sg.adv(dst))):
+                got = [text[i] for i in range(sg.adv(dst))]
+            enc_len.setdefault(b, set()).add(len(got) if got is not None else None)
+            if got != want:
+                (bad_table if b in RFC6901.values() else bad_copy).append((b, got))
+    extracted += 1
+    R.ob('TAB9', fn, None, "encode table: '/' is written as ~1 and '~' as ~0, stepping one source byte and two destination bytes",
+         not bad_table, "RFC 6901 section 3" if not bad_table else 'byte %r is written as %s' % (
+             chr(bad_table[0][0]), bad_table[0][1] and ''.join(map(chr, bad_table[0][1]))), key='encode-table')
+    R.ob('TAB9', fn, None, 'every other byte 1..255 is copied unchanged, one for one', not bad_copy,
+         '253 byte values' if not bad_copy else 'byte %d is written as %s' % bad_copy[0], key='encode-copy')
+    term = [sg for sg in segs if sg.bytes_at(src) == frozenset([0])]
+    okt = bool(term) and all(bp.expand_text(sg.writes_through(dst), 0, lambda p: 0) == {0: 0} and sg.end[0] != 'head' for sg in term)
+    R.ob('TAB9', fn, None, 'at the end of the source a terminator is written where the destination cursor stands', okt,
+         '%d terminating path(s)' % len(term), key='encode-terminator')
 
-    # pointer_encoded_length: bytes that count double
+    # ---- pointer_encoded_length ----
     fn = u.fn('pointer_encoded_length')
-    esc = set()
-    for s in fn.nodes():
-        if s.get('k') == 'if':
-            for p in _flatten(s['c'], '||'):
-                ce = _char_eq(p)
-                if ce and not ce[2]:
-                    esc.add(ce[1])
-    ok = esc == set(enc)
-    R.ob('TAB9', fn, None, 'length table counts %s double' % sorted(map(chr, esc)), ok,
-         'same escape set as the encoder' if ok else 'encoder escapes %s' % sorted(map(chr, enc)), key='length-table')
+    ex = bp.explore(u, fn)
+    segs = bp.loop_segments(ex)
+    src = _one(bp.reading_cursors(segs), 'the string cursor', fn)
+    rets = [sg for sg in ex.segments if sg.end[0] == 'return' and sg.end_node.expr is not None]
+    names = {strip_casts(sg.end_node.expr).get('n') for sg in rets if strip_casts(sg.end_node.expr).get('k') == 'ref'}
+    counter = _one({n for n in names if n}, 'the returned counter', fn)
+    bad = []
+    for b in range(1, 256):
+        ss = _segments_for(segs, src, b)
+        if not ss:
+            raise AnalysisBroken('TAB9: %s: no path for byte %d' % (fn.name, b))
+        for sg in ss:
+            v = sg.vals.get(counter)
+            got = v[1] if (v is not None and v[0] == 'd' and sg.end[0] == 'head' and sg.adv(src) == 1) else None
+            if {got} != enc_len[b] or got != len(_rfc6901_encoding(b)):
+                bad.append((b, got, sorted(enc_len[b], key=repr)))
+    extracted += 1
+    R.ob('TAB9', fn, None, 'for every byte 1..255 the length pass counts exactly what the encoder writes', not bad,
+         "2 for '/' and '~', 1 otherwise" if not bad else 'byte %d counted %s, encoder writes %s' % bad[0], key='length-table')
 
-    # decode_pointer_inplace: if (s[0]=='~') { if (s[1]=='0') d = '~' else if (s[1]=='1') d = '/' else invalid }
+    # ---- decode_pointer_inplace ----
     fn = u.fn('decode_pointer_inplace')
-    dec = {}
-    for s in fn.nodes():
-        if s.get('k') != 'if':
+    ex = bp.explore(u, fn)
+    segs = bp.loop_segments(ex)
+    bad_table, bad_copy, bad_invalid = [], [], []
+    for sg in segs:
+        rd = [c for c in sg.start_root if sg.constrained(c)]
+        if not rd:
             continue
-        ce = _char_eq(s['c'])
-        if ce is None or ce[2] or ce[1] not in RFC6901:
+        # several cursors may share the position read; the writing one is the one with writes
+        roots = {sg.start_root[c] for c in rd}
+        if len(roots) != 1:
+            raise AnalysisBroken('TAB9: %s: a path reads through two unrelated cursors' % fn.name)
+        root = roots.pop()
+        b0s = sg.B.get((root, 0), bp.ALL)
+        b1s = sg.B.get((root, 1), bp.ALL)
+        wr = list(sg.writes)
+        in_adv = max([sg.adv(c) for c in rd if sg.adv(c) is not None] or [None], key=lambda x: -1 if x is None else x)
+        out_c = sorted({w[3] for w in wr if w[3] is not None})
+        if b0s == frozenset([0]):
             continue
-        if strip_casts(ce[0]).get('k') != 'idx' or const_val(strip_casts(ce[0])['i']) != 1:
+        if ord('~') not in b0s:
+            # plain byte: copied to the write position, both cursors step by one
+            ok = sg.end[0] == 'head' and in_adv == 1 and len(wr) == 1 and wr[0][1] == 0 and wr[0][2] == ('in', root, 0) and \
+                all(sg.adv(c) == 1 for c in out_c)
+            if not ok:
+                bad_copy.append((sorted(b0s)[:3], sg.line))
             continue
-        vals = [const_val(a['r']) for a in walk(s['t']) if a.get('k') == 'bin' and a['op'] == '=' and const_val(a['r']) is not None]
-        if vals:
-            dec[ce[1]] = vals[0]
-    if not dec:
-        raise AnalysisBroken('TAB9: escape table of decode_pointer_inplace could not be extracted')
-    ok = dec == RFC6901
-    R.ob('TAB9', fn, None, 'decode table %s' % {chr(k): chr(v) for k, v in dec.items()}, ok,
-         '~0->~, ~1->/ (inverse of the encoder)' if ok else 'does not invert the encoder', key='decode-table')
+        if b0s != frozenset([ord('~')]):
+            raise AnalysisBroken('TAB9: %s: a path treats ~ together with other bytes' % fn.name)
+        for d in sorted(b1s):
+            if chr(d) in '01' or d in RFC6901:
+                want = RFC6901.get(d)
+                ok = want is not None and sg.end[0] == 'head' and in_adv == 2 and len(wr) == 1 and wr[0][1] == 0 and \
+                    wr[0][2] == ('k', want) and all(sg.adv(c) == 1 for c in out_c)
+                if not ok:
+                    bad_table.append((chr(d), wr[0][2] if wr else None, in_adv))
+            elif sg.end[0] == 'head':
+                bad_invalid.append(d)
+    extracted += 1
+    R.ob('TAB9', fn, None, 'decode table: ~0 becomes ~ and ~1 becomes /, consuming two bytes and writing one', not bad_table,
+         'inverse of the encoder' if not bad_table else '~%s: writes %s, consumes %s' % bad_table[0], key='decode-table')
+    R.ob('TAB9', fn, None, 'every other byte is copied unchanged, one for one', not bad_copy,
+         'all non-escape paths' if not bad_copy else 'bytes %s...: path ending at line %d does not copy one byte' % bad_copy[0],
+         key='decode-copy')
+    R.ob('TAB9', fn, None, 'no other byte after ~ is decoded', not bad_invalid,
+         'a ~ followed by anything else ends the decoding' if not bad_invalid else '~%s is accepted' % ''.join(map(chr, bad_invalid[:5])),
+         key='decode-invalid')
 
-    # compare_pointers: ((p[1] != '0') || (*name != '~')) && ((p[1] != '1') || (*name != '/'))
+    # ---- compare_pointers ----
     fn = u.fn('compare_pointers')
-    cmpt = {}
-    for x in fn.nodes():
-        if x.get('k') == 'bin' and x['op'] == '||':
-            parts = [_char_eq(p) for p in _flatten(x, '||')]
-            if len(parts) == 2 and all(p and p[2] for p in parts):
-                # which side is the escape digit: the one indexing [1]
-                a, b = parts
-                da = strip_casts(a[0])
-                if da.get('k') == 'idx' and const_val(da['i']) == 1:
-                    cmpt[a[1]] = b[1]
-                else:
-                    db = strip_casts(b[0])
-                    if db.get('k') == 'idx' and const_val(db['i']) == 1:
-                        cmpt[b[1]] = a[1]
-    if not cmpt:
-        raise AnalysisBroken('TAB9: escape table of compare_pointers could not be extracted')
-    ok = cmpt == RFC6901
-    R.ob('TAB9', fn, None, 'compare table %s' % {chr(k): chr(v) for k, v in cmpt.items()}, ok,
-         'agrees with decoder and encoder' if ok else 'disagrees with the decoder', key='compare-table')
-    R.floor('TAB9', 'pointer escape tables extracted', 4, 4)
+    flag = [p['n'] for p in fn.params if p['n'] == FLAG]
+    tables = {}
+    plain_bad = []
+    for cs in (1, 0):
+        ex = bp.explore(u, fn, assume={FLAG: cs} if flag else None)
+        segs = bp.loop_segments(ex)
+        rd = bp.reading_cursors(segs)
+        ptr = {c for c in rd if any(1 in sg.constrained(c) for sg in segs)}      # the one looked ahead into
+        ptr = _one(ptr, 'the encoded-pointer cursor', fn)
+        nam = _one(rd - {ptr}, 'the key cursor', fn)
+        table = {}
+        other = []
+        for sg in segs:
+            if sg.bytes_at(ptr) != frozenset([ord('~')]) or sg.end[0] != 'head':
+                continue
+            d, k = sg.bytes_at(ptr, 1), sg.bytes_at(nam)
+            if len(d) == 1 and len(k) == 1 and sg.adv(ptr) == 2 and sg.adv(nam) == 1:
+                table[next(iter(d))] = next(iter(k))
+            else:
+                other.append((sorted(d)[:3], sorted(k)[:3], sg.adv(ptr), sg.adv(nam)))
+        tables[cs] = (table, other)
+        # plain bytes: the comparison continues exactly when the two bytes are equal (up to case when insensitive)
+        pr, nr = None, None
+        for sg in segs:
+            pr, nr = sg.start_root[ptr], sg.start_root[nam]
+            break
+        for y in range(1, 256):
+            if y in (ord('~'), ord('/')):
+                continue
+            for x in range(1, 256):
+                want = (x == y) if cs else (bp._tolower(x) == bp._tolower(y))
+                cont = False
+                for sg in segs:
+                    if sg.end[0] != 'head' or y not in sg.bytes_at(ptr) or x not in sg.bytes_at(nam):
+                        continue
+                    f = bp.feasible(ex, sg, {(sg.start_root[ptr], 0): y, (sg.start_root[nam], 0): x})
+                    if f is None:
+                        raise AnalysisBroken('TAB9: %s: a comparison on the path ending at line %d cannot be evaluated' % (fn.name, sg.line))
+                    if f and sg.adv(ptr) == 1 and sg.adv(nam) == 1:
+                        cont = True
+                    elif f:
+                        cont = None
+                if cont != want:
+                    plain_bad.append((cs, x, y, cont))
+                    break
+            if plain_bad:
+                break
+        if not flag:
+            break
+    extracted += 1
+    okc = all(t == RFC6901 and not o for (t, o) in tables.values())
+    t0 = tables[1][0]
+    R.ob('TAB9', fn, None, 'compare table %s' % {chr(k): chr(v) for k, v in sorted(t0.items())}, okc,
+         'a ~ in the pointer continues only as ~0 against ~ or ~1 against /, stepping two against one: agrees with decoder and encoder'
+         if okc else 'disagrees with the decoder: %s' % (tables,), key='compare-table')
+    R.ob('TAB9', fn, None, 'plain bytes match exactly when equal (folded to lower case when case-insensitive)', not plain_bad,
+         'all 253 x 255 pairs, both settings of the flag' if not plain_bad else
+         'case_sensitive=%d: key byte %d against pointer byte %d continues: %s' % plain_bad[0], key='compare-plain')
+    R.floor('TAB9', 'pointer escape tables extracted', extracted, 4)
 
 
 # ---- TAB10 patch opcodes ---------------------------------------------------------------------------
@@ -181,22 +286,127 @@ def tab10(units, R):
     consts = {c['n']: c['val'] for c in en[0]['consts']}
     fn = u.fn('decode_patch_operation')
     mapping = {}
-    for s in fn.nodes():
-        if s.get('k') != 'if':
+    cfg = fn.cfg()
+
+    def strcmp_test(e):
+        """(call, equal_truth): e is `strcmp(..) == 0` / `!strcmp(..)` / `strcmp(..) != 0` / `strcmp(..)`"""
+        e = strip_casts(e)
+        p = cmp_parts(e)
+        if p is not None and p[2] == 0 and p[1] in ('==', '!='):
+            c = strip_casts(p[0])
+            if c.get('k') == 'call' and callee_name(c) in ('strcmp', 'strncmp'):
+                return c, p[1] == '=='
+        if e.get('k') == 'call' and callee_name(e) in ('strcmp', 'strncmp'):
+            return e, False
+        return None
+
+    # constant tables local to the function: name -> list of initialisers (only when never stored to or handed out)
+    tables = {}
+    for d in fn.locals():
+        if d.get('static') and 'init' in d and d['init'].get('k') == 'initlist':
+            touched = False
+            for x in fn.nodes():
+                if x.get('k') == 'bin' and x['op'] in ASSIGN_OPS:
+                    l = strip_casts(x['l'])
+                    if l.get('k') == 'idx' and strip_casts(l['b']).get('d') == d['d']:
+                        touched = True
+                if x.get('k') == 'call' and any(strip_casts(a0).get('d') == d['d'] for a0 in x['args']):
+                    touched = True
+                if x.get('k') == 'un' and x['op'] == '&' and any(y.get('d') == d['d'] for y in walk(x['e'])) and \
+                        strip_casts(x['e']).get('k') != 'idx':
+                    touched = True
+            if not touched:
+                tables[d['d']] = [strip_casts(i) for i in d['init']['inits']]
+
+    def equal_edges(pred_call):
+        """branch edges on which a strcmp satisfying pred_call compared equal -> list of (node id, label polarity, call)"""
+        out = []
+        for n in cfg.nodes:
+            if n.kind != 'branch':
+                continue
+            t = strcmp_test(n.expr)
+            if t is None:
+                continue
+            call, eq_truth = t
+            if pred_call(call):
+                out.append((n.id, 'T' if eq_truth else 'F', call))
+        return out
+
+    def guarded_by_equal(ret_id, edges):
+        """the return is unreachable once the "compared equal" edges are removed"""
+        ids = {(nid, pol) for (nid, pol, _c) in edges}
+        return guarded_by(cfg, ret_id, lambda n, l: n.kind == 'branch' and l is not None and (n.id, l[0]) in ids) if ids else False
+
+    def literal_arg(call):
+        for a0 in call['args']:
+            a0 = strip_casts(a0)
+            if a0.get('k') == 'str':
+                return ('lit', bytes(a0['bytes']).decode('latin1'))
+            if a0.get('k') == 'idx' and strip_casts(a0['b']).get('d') in tables and is_ref(a0['i']):
+                return ('tab', strip_casts(a0['b'])['d'], strip_casts(a0['i'])['d'])
+        return None
+    all_edges = equal_edges(lambda c: literal_arg(c) is not None)
+    for r in cfg.returns():
+        if r.expr is None:
             continue
-        p = cmp_parts(s['c'])
-        if p is None or p[1] != '==' or p[2] != 0:
-            continue
-        call = p[0]
-        if call.get('k') != 'call' or callee_name(call) not in ('strcmp', 'strncmp'):
-            continue
-        lit = [a for a in call['args'] if strip_casts(a).get('k') == 'str']
-        if not lit:
-            continue
-        name = bytes(strip_casts(lit[0])['bytes']).decode('latin1')
-        rets = [r for r in walk(s['t']) if r.get('k') == 'return' and 'e' in r]
-        if rets and strip_casts(rets[0]['e']).get('k') == 'ref':
-            mapping.setdefault(strip_casts(rets[0]['e'])['n'], []).append(name)
+        e = strip_casts(r.expr)
+        if e.get('k') == 'ref' and e.get('dk') == 'enumc':
+            if e['n'] == 'INVALID':
+                continue
+            lits = set()
+            for (nid, pol, call) in all_edges:
+                la = literal_arg(call)
+                if la[0] == 'lit' and guarded_by_equal(r.id, [(nid, pol, call)]):
+                    lits.add(la[1])
+            guarded = guarded_by_equal(r.id, [ed for ed in all_edges if literal_arg(ed[2])[0] == 'lit'])
+            if not guarded:
+                mapping.setdefault(e['n'], []).append('<unguarded>')
+            for l in sorted(lits):
+                mapping.setdefault(e['n'], []).append(l)
+            if guarded and not lits:
+                # reached through any one of several comparisons
+                for (nid, pol, call) in all_edges:
+                    la = literal_arg(call)
+                    if la[0] == 'lit' and r.id in cfg.reachable(nid):
+                        mapping.setdefault(e['n'], []).append(la[1])
+        elif e.get('k') == 'idx' and strip_casts(e['b']).get('d') in tables and is_ref(e['i']):
+            # return opcodes[i] guarded by strcmp(x, names[i]) == 0 with the same i
+            tab_d, idx_d = strip_casts(e['b'])['d'], strip_casts(e['i'])['d']
+            eds = [ed for ed in all_edges if literal_arg(ed[2])[0] == 'tab' and literal_arg(ed[2])[2] == idx_d]
+            if not eds or not guarded_by_equal(r.id, eds):
+                raise AnalysisBroken('TAB10: %s: table lookup is not guarded by a comparison with the same index' % fn.where(r.expr))
+            # the index may not change between the comparison and the return
+            for (nid, pol, call) in eds:
+                between = cfg.reachable(nid, stop={r.id})
+                for m in between:
+                    nd = cfg.nodes[m]
+                    if nd.expr is None or m == nid:
+                        continue
+                    for x in walk(nd.expr):
+                        t = None
+                        if x.get('k') == 'bin' and x['op'] in ASSIGN_OPS:
+                            t = strip_casts(x['l'])
+                        elif x.get('k') == 'un' and x['op'] in ('post++', 'post--', 'pre++', 'pre--'):
+                            t = strip_casts(x['e'])
+                        if t is not None and t.get('d') == idx_d and r.id in cfg.reachable(m):
+                            # the loop increment is also "between" along the back edge; only count straight-line
+                            # changes, i.e. those from which the return is reachable without passing the comparison again
+                            if r.id in cfg.reachable(m, stop={nid}):
+                                raise AnalysisBroken('TAB10: %s: index changes between comparison and lookup' % fn.where(r.expr))
+            name_tabs = {literal_arg(ed[2])[1] for ed in eds}
+            if len(name_tabs) != 1:
+                raise AnalysisBroken('TAB10: %s: several name tables' % fn.where(r.expr))
+            names_t, ops_t = tables[name_tabs.pop()], tables[tab_d]
+            if len(names_t) != len(ops_t):
+                R.ob('TAB10', fn, r.expr, 'name table and opcode table have the same length', False,
+                     '%d names, %d opcodes' % (len(names_t), len(ops_t)), key='decode-tables')
+            for nm, oc in zip(names_t, ops_t):
+                if nm.get('k') == 'str' and oc.get('k') == 'ref' and oc.get('dk') == 'enumc':
+                    mapping.setdefault(oc['n'], []).append(bytes(nm['bytes']).decode('latin1'))
+                else:
+                    raise AnalysisBroken('TAB10: %s: table entries are not literal name / enumerator' % fn.where(r.expr))
+        else:
+            raise AnalysisBroken('TAB10: %s: return value %s is neither an enumerator nor a table lookup' % (fn.where(r.expr), expr_str(e)[:40]))
     for cname in consts:
         if cname == 'INVALID':
             continue
@@ -385,7 +595,7 @@ def tab12(units, R):
                     b['n'], x['f'], '/'.join(sorted(guards)), b['n'])
             R.ob('TAB12', fn, x, '%s->%s used only after a kind test' % (b['n'], x['f']), ok, why,
                  key='payload:%s->%s' % (b['n'], x['f']))
-    R.floor('TAB12', 'payload uses of looked-up nodes', n, 8)
+    R.floor('TAB12', 'payload uses of looked-up nodes', n, 4)
 
 
 # ---- TAB13 string-scanner agreement ----------------------------------------------------------------
